@@ -1,3 +1,5 @@
+//go:build !no_c06
+
 package props
 
 import (
